@@ -295,7 +295,7 @@ func (srv *Srv) createPost(req *SrvReq) {
 func (srv *Srv) read(req *SrvReq) {
 	tc := req.Tc
 	fid := req.Fid
-	if tc.Count+IOHDRSZ > req.Conn.Msize {
+	if uint64(tc.Count)+IOHDRSZ > uint64(req.Conn.Msize) {
 		req.RespondError(Etoolarge)
 		return
 	}
@@ -367,7 +367,7 @@ func (srv *Srv) write(req *SrvReq) {
 		return
 	}
 
-	if tc.Count+IOHDRSZ > req.Conn.Msize {
+	if uint64(tc.Count)+IOHDRSZ > uint64(req.Conn.Msize) {
 		req.RespondError(Etoolarge)
 		return
 	}
